@@ -80,6 +80,10 @@ var catalogue = []srDef{
 	{"+proj=nosuchprojection +datum=WGS84", 15, 50, "bad"},
 	{"+proj=lcc +lat_1=10 +lat_2=-10 +lat_0=0 +lon_0=0 +datum=potsdam", 0, 0, "bad"},
 	{"+proj=eqdc +lat_0=0 +lon_0=0 +lat_1=20 +lat_2=-20 +ellps=bessel +towgs84=1,2,3", 0, 0, "bad"},
+	// +lat_2 defaulted from a +lat_1 (near) 0: the parallels check must give the same answer on every run
+	{"+proj=eqdc +lat_0=0 +lon_0=0 +lat_1=0 +x_0=0 +y_0=0 +datum=WGS84", 5, 5, "bad"},
+	{"+proj=eqdc +lat_0=0 +lon_0=0 +lat_1=0.000000001 +x_0=0 +y_0=0 +ellps=bessel +towgs84=1,2,3", 5, 5, "bad"},
+	{"+proj=lcc +lat_0=0 +lon_0=0 +lat_1=0 +x_0=0 +y_0=0 +datum=WGS84", 5, 5, "bad"},
 }
 
 var axes = []string{"wnu", "neu", "esu", "wsu", "nwu", "swd", "end", "enu", "une", "dws", "sed"}
